@@ -35,14 +35,19 @@ InitObs(file, dev) ==
      acked |-> FALSE,               \* ... and the device acknowledged it
      failed |-> FALSE,              \* ... or refused / errored
      newp |-> NoPin,
+     loaded |-> NoPin,              \* the PIN this lifetime loaded (the PIN in use until a change commits)
+     fsfail |-> FALSE,              \* a file operation of the commit failed in this lifetime
      win |-> FALSE,                 \* the known window (ack .. durable commit) was observed
      winfile |-> NoPin, windev |-> NoPin]
 
-\* event kinds: start(force) load(ok) unlock(ok) newpin(pin, ok) fs(op, ok) end(outcome)
+\* event kinds: start(force) load(ok, pin) unlock(ok) newpin(pin, ok) fs(op, ok) end(outcome, mem)
 Observe(o, e) ==
     LET o1 == IF e.k = "start"
               THEN [o EXCEPT !.startfile = e.file, !.startdev = e.dev, !.attempted = FALSE,
-                             !.acked = FALSE, !.failed = FALSE, !.newp = NoPin]
+                             !.acked = FALSE, !.failed = FALSE, !.newp = NoPin, !.loaded = NoPin,
+                             !.fsfail = FALSE]
+              ELSE IF e.k = "load" /\ e.ok = "t" THEN [o EXCEPT !.loaded = e.pin]
+              ELSE IF e.k = "fs" /\ e.ok = "f" THEN [o EXCEPT !.fsfail = TRUE]
               ELSE IF e.k = "newpin"
               THEN [o EXCEPT !.attempted = TRUE, !.newp = e.pin,
                              !.acked = (e.ok = "t"), !.failed = (e.ok # "t")]
@@ -65,6 +70,9 @@ Clauses(o, n, e) == <<
     <<"DevicePinChangedWithoutAck", (e.dev # o.dev) => (e.k = "newpin" /\ e.ok = "t" /\ e.dev = e.pin)>>,
     <<"FailedChangeTouchedFile", (n.failed /\ e.k # "start") => e.file = n.startfile>>,
     <<"FailedChangeTouchedDevicePin", (n.failed /\ e.k # "start") => e.dev = n.startdev>>,
+    \* the PIN in use (what get_pin() answers when the bring-up ends) after a change that did not go through
+    <<"FailedChangeTouchedPinInUse", (e.k = "end" /\ e.outcome # "crash" /\ e.mem # NoPin /\ (n.failed \/ n.fsfail))
+                                        => e.mem = n.loaded>>,
     <<"ServedAfterChangeAttempt", (e.k = "end" /\ e.outcome = "serve") => ~n.attempted>>,
     <<"NewPinWithoutUnlock", TRUE>>,
     <<"Recoverable", RecoverableP(e.file, e.dev) \/ InWindow(n, e)>> >>
